@@ -27,10 +27,18 @@ func (r *Run) doStats(op *plan.Op, rec *plan.Rec) {
 	rec.Info = string(b)
 }
 
-type subscription struct{}
-
-func (r *Run) doPubSub(c *client, sc *plan.Script, idx int, op *plan.Op, rec *plan.Rec) {
-	rec.Err = "other:pubsub not implemented"
+func (r *Run) doCtlExtra(sc *plan.Script, op *plan.Op, rec *plan.Rec) bool {
+	switch op.K {
+	case "ctl.snapshot":
+		rec.Snap = r.Snapshot(op.Flag)
+	case "ctl.owner":
+		dmn := op.DM
+		if dmn == "" {
+			dmn = r.P.DMap
+		}
+		rec.Int = int64(r.OwnerOf(dmn, op.Key))
+	default:
+		return false
+	}
+	return true
 }
-
-func (r *Run) doCtlExtra(sc *plan.Script, op *plan.Op, rec *plan.Rec) bool { return false }
